@@ -6,13 +6,13 @@ Open Scope string_scope.
 
 (* one decorator of a handler / worker, in source order (outermost first) *)
 Inductive deco : Type :=
-| DConn (fields : list string) (wait : bool) (fail_code : string)  (* ConnectionConditions(...) *)
-| DPathCond (conds : list string)                                  (* PathConditions(path_must_exists, ...) *)
-| DPathPerm (perms : list string)                                  (* PathPermissions(readable | writable, ...) *)
-| DWorker                                                          (* @worker *)
+| DConn (fields : list string) (wait : bool) (fail_code : string)  
+| DPathCond (conds : list string)                                  
+| DPathPerm (perms : list string)                                  
+| DWorker                                                          
 | DOther (name : string).
 
-(* where the argument of a backend (connection.path_io.*) call comes from *)
+(* where the argument of a backend call on connection.path_io comes from *)
 Inductive psrc : Type :=
 | SReal            (* real_path from get_paths(connection, rest) in this function or its enclosing handler *)
 | SRealParent      (* real_path.parent *)
@@ -66,7 +66,7 @@ Record dispatcher_facts := {
   d_unknown_code : string;              (* reply for a verb missing from the table *)
   d_false_ends : bool;                  (* a handler result False makes the dispatcher return *)
   d_initial_pending : list string;      (* tasks created before the loop *)
-  d_conn_init : list string;            (* keyword names of Connection(...) *)
+  d_conn_init : list string;            (* keyword names of the Connection constructor call *)
 }.
 
 Definition deco_is_conn (d : deco) : bool := match d with DConn _ _ _ => true | _ => false end.
